@@ -488,6 +488,45 @@ def _canon_sign(r):
     return r, 1
 
 
+# Symbols declared non-negative by a rule (e.g. the cells a, b, c, d of a contingency table).  log(x*y) = log(x) + log(y) holds
+# on the whole domain of the left-hand side only when the factors cannot be negative; for other arguments the logarithm of a
+# quotient is NOT split (log(f/o) is defined for f, o < 0, log(f) - log(o) is not).
+NONNEG = set()
+
+
+def _all_nonneg(r):
+    for a in r.atoms(deep=False):
+        if a.key not in NONNEG:
+            return False
+    return True
+
+
+def _log_whole(func, x):
+    """log of a rational function whose factors may be negative: only sound rewrites (positive constant content,
+    log(1/x) = -log(x), log(exp(x)) = x)."""
+    ms = sorted(x.num, key=_mono_sortkey)
+    md = sorted(x.den, key=_mono_sortkey)
+    c = x.num[ms[0]] / x.den[md[0]]
+    out = Rat.const(0)
+    if c < 0:
+        c = -c
+    if c != 1:
+        out = out + Rat.of_atom(atom(func, (Rat.const(c),)))
+        x = x / Rat.const(c)
+    if x.is_const():
+        cv = x.const_value()
+        if cv == 1:
+            return out
+        return out + Rat.of_atom(atom(func, (x,)))
+    sa = x.single_atom()
+    if sa is not None and sa[0].func == "exp" and func == "log" and sa[2] == 1:
+        return out + sa[0].args[0] * Rat.const(sa[1])
+    inv = Rat.const(1) / x
+    if inv.key() < x.key():
+        return out - Rat.of_atom(atom(func, (inv,)))
+    return out + Rat.of_atom(atom(func, (x,)))
+
+
 def _log_poly(func, p):
     """log of a polynomial: split monomials, extract content."""
     if len(p) == 1:
@@ -570,6 +609,8 @@ def apply(func, args, kwargs=None):
             return Rat.const(0)
         if c is not None and c <= 0:
             raise Undefined("log of non-positive constant")
+        if not _all_nonneg(x):
+            return _log_whole(func, x)
         return _log_poly(func, x.num) - _log_poly(func, x.den)
     if func == "exp" and x is not None:
         if x.is_zero():
